@@ -226,7 +226,7 @@ def s_nfa_accepts(ev, N, w):
 # Names produced by format strings are uninterpreted functions on atoms.  What proofs need from them
 # (injectivity, disjointness from operand names) are the named assumptions N1..N5, each backed by a bounded
 # check on the real format strings.
-EMPTY_STRING_ATOM = z3.Const('lit_emptystring', Atom)        # '' used as a name (default epsilon)
+EMPTY_STRING_ATOM = lit('')        # '' used as a name (default epsilon)
 name_of_set = Function('name_of_set', SetA, Atom)             # print_state_set
 pair_name = Function('pair_name', Atom, Atom, Atom)           # '({},{})'.format
 hint_index_name = Function('hint_index_name', Atom, Int, Atom)  # '{}{}'.format(hint, index)
@@ -246,3 +246,85 @@ axiom('naming', 'assumed', 'N4 hint+index is injective in the index',
 def s_name_of_set(ev, s): return SV(ATOM, name_of_set(s.z))
 @spec('pair_name')
 def s_pair_name(ev, a, b): return SV(ATOM, pair_name(a.z, b.z))
+
+
+# ====================================================================== Turing machines (Sipser; bounded run)
+TMs = sort_of(REC('TM')); ListA = sort_of(LIST(ATOM)); _LA = parts(LIST(ATOM))
+run_q = Function('run_q', TMs, Word, Int, Atom)
+run_tape = Function('run_tape', TMs, Word, Int, ListA)
+run_head = Function('run_head', TMs, Word, Int, Int)
+_Tm = Const('Tm', TMs)
+
+
+def tm_step_terms(Tm, q, tape, head):
+    """one step exactly as in the definition: read, default-to-reject, write, clamp at 0, extend with blank"""
+    Tsv = SV(REC('TM'), Tm); dl = rec_get(Tsv, 'delta'); dom, val = map_dom(dl), map_val(dl)
+    ln, arr = _LA[2](tape), _LA[3](tape)
+    a = Select(arr, head); k = mkKey2(q, a)
+    t3 = parts(TUP(ATOM, ATOM, ATOM))
+    has = Select(dom, k); v = Select(val, k)
+    q1 = If(has, t3[2](v), rec_get(Tsv, 'q_reject').z); b = If(has, t3[3](v), a); d = If(has, t3[4](v), lit('R'))
+    arr1 = Store(arr, head, b)
+    head1 = If(d == lit('L'), If(head - 1 >= 0, head - 1, 0), head + 1)
+    grow = head1 == ln
+    tape1 = _LA[1](If(grow, ln + 1, ln), If(grow, Store(arr1, ln, rec_get(Tsv, 'blank').z), arr1))
+    return q1, tape1, head1
+
+
+def tm_halting(Tm, q):
+    Tsv = SV(REC('TM'), Tm)
+    return Or(q == rec_get(Tsv, 'q_accept').z, q == rec_get(Tsv, 'q_reject').z)
+
+
+axiom('tm', 'def', 'run-0-q', ForAll([_Tm, _w], run_q(_Tm, _w, 0) == rec_get(SV(REC('TM'), _Tm), 'q0').z))
+axiom('tm', 'def', 'run-0-head', ForAll([_Tm, _w], run_head(_Tm, _w, 0) == 0))
+axiom('tm', 'def', 'run-0-tape-len', ForAll([_Tm, _w], _LA[2](run_tape(_Tm, _w, 0)) == If(wlen(_w) == 0, 1, wlen(_w))))
+axiom('tm', 'def', 'run-0-tape-cells', ForAll([_Tm, _w, _i], Implies(And(0 <= _i, _i < wlen(_w)), Select(_LA[3](run_tape(_Tm, _w, 0)), _i) == at(_w, _i))))
+axiom('tm', 'def', 'run-0-tape-blank', ForAll([_Tm, _w], Implies(wlen(_w) == 0, Select(_LA[3](run_tape(_Tm, _w, 0)), 0) == rec_get(SV(REC('TM'), _Tm), 'blank').z)))
+def _run_step_axioms():
+    q, tp, hd = run_q(_Tm, _w, _i), run_tape(_Tm, _w, _i), run_head(_Tm, _w, _i)
+    q1, tp1, hd1 = tm_step_terms(_Tm, q, tp, hd)
+    h = tm_halting(_Tm, q)
+    axiom('tm', 'def', 'run-step-q', ForAll([_Tm, _w, _i], Implies(_i >= 0, run_q(_Tm, _w, _i + 1) == If(h, q, q1))))
+    axiom('tm', 'def', 'run-step-tape', ForAll([_Tm, _w, _i], Implies(_i >= 0, run_tape(_Tm, _w, _i + 1) == If(h, tp, tp1))))
+    axiom('tm', 'def', 'run-step-head', ForAll([_Tm, _w, _i], Implies(_i >= 0, run_head(_Tm, _w, _i + 1) == If(h, hd, hd1))))
+_run_step_axioms()
+axiom('tm', 'lemma', 'run-sticky', ForAll([_Tm, _w, _i, _k], Implies(And(0 <= _i, _i <= _k, tm_halting(_Tm, run_q(_Tm, _w, _i))), run_q(_Tm, _w, _k) == run_q(_Tm, _w, _i))))
+
+axiom('tm', 'lemma', 'run-sticky-0', ForAll([_Tm, _w, _k], Implies(And(0 <= _k, tm_halting(_Tm, rec_get(SV(REC('TM'), _Tm), 'q0').z)), run_q(_Tm, _w, _k) == rec_get(SV(REC('TM'), _Tm), 'q0').z)))
+
+
+@spec('run_q')
+def s_run_q(ev, Tm, w, i): return SV(ATOM, run_q(Tm.z, w.z, i.z))
+@spec('run_tape')
+def s_run_tape(ev, Tm, w, i): return SV(LIST(ATOM), run_tape(Tm.z, w.z, i.z))
+@spec('run_head')
+def s_run_head(ev, Tm, w, i): return SV(INT, run_head(Tm.z, w.z, i.z))
+@spec('tm_halting')
+def s_tm_halting(ev, Tm, q): return SV(BOOL, tm_halting(Tm.z, q.z))
+@spec('tstep_q')
+def s_tstep_q(ev, Tm, q, tape, head): return SV(ATOM, tm_step_terms(Tm.z, q.z, tape.z, head.z)[0])
+@spec('tstep_tape')
+def s_tstep_tape(ev, Tm, q, tape, head): return SV(LIST(ATOM), tm_step_terms(Tm.z, q.z, tape.z, head.z)[1])
+@spec('tstep_head')
+def s_tstep_head(ev, Tm, q, tape, head): return SV(INT, tm_step_terms(Tm.z, q.z, tape.z, head.z)[2])
+
+
+@spec('tm_wf')
+def s_tm_wf(ev, Tm):
+    """the class invariant established by TM._check_validity"""
+    g = lambda f: rec_get(Tm, f)
+    Q, Sg, Gm, dl = g('Q').z, g('Sigma').z, g('Gamma').z, g('delta')
+    dom, val = map_dom(dl), map_val(dl); t3 = parts(TUP(ATOM, ATOM, ATOM))
+    x, y = fresh_z('x', Atom), fresh_z('y', Atom); k = mkKey2(x, y); v = Select(val, k)
+    return SV(BOOL, And(Select(Q, g('q0').z), Select(Q, g('q_accept').z), Select(Q, g('q_reject').z), g('q_reject').z != g('q_accept').z,
+                        Not(Select(Sg, g('blank').z)), Select(Gm, g('blank').z), ForAll([x], Implies(Select(Sg, x), Select(Gm, x))),
+                        ForAll([x, y], Implies(Select(dom, k), And(Select(Q, x), Select(Gm, y), Select(Q, t3[2](v)), Select(Gm, t3[3](v)),
+                                                                   Or(t3[4](v) == lit('L'), t3[4](v) == lit('R')))))))
+
+
+@spec('tm_verdict')
+def s_tm_verdict(ev, Tm, w, k):
+    """three-valued verdict after at most k steps (the run is sticky at halting configurations)"""
+    ob = OPT(BOOL); po = parts(ob); q = run_q(Tm.z, w.z, k.z)
+    return SV(ob, If(q == rec_get(Tm, 'q_accept').z, po[2](z3.BoolVal(True)), If(q == rec_get(Tm, 'q_reject').z, po[2](z3.BoolVal(False)), po[1])))
